@@ -239,7 +239,7 @@ def run(ctx):
                 '(twelve species in a cycle, plain, one with a rule and rejected create_rule / create_reaction calls after it, one whose rules read the volume, delayed reaction, repeated assignment rule, both, a rule due at the start spelled "start" and "0") x grid lengths; every call is made on the real py_simulate_model under a ' 'fixed seed; for two models the time grid is also given as a strided view, a table column, a read-only and a Fortran-ordered array, and a reaction that introduces a species is added (with an explicit re-initialisation) between two calls on the same Model; '
                 'fixed seed, and for one grid length the same call is repeated on the same Model / interface. Oracle: a returned result has the requested time axis (prefix if divided), one column per species in model '
                 'order (+volume when a volume is used; a constant volume given as a number or Volume object is reported with that value), first row = initial condition with rules applied; a refusal must be a ValueError/'
-                'TypeError naming an option (or NotImplementedError raised by the entry point itself). states = transitions = calls; '
+                'TypeError naming an option (or NotImplementedError raised by the entry point itself). For every grid layout the same call on a fresh model with a contiguous copy of the grid and the same seed must report the same rows (the delayed model takes part). states = transitions = calls; '
                 'non-trivial = distinct (option tuple, model) that returned, plus distinct rejected option classes.')
     ctx.assumptions = ['uniform grids starting at the model initial time 0']
     c0 = ctx
